@@ -480,19 +480,360 @@ fn classify(min: &[Op], kind: &str) -> String {
     format!("C09/{kind}")
 }
 
+// ---------------------------------------------------------------------------
+// parallel part: one writer per key (so "issued before" is a total order per
+// key), several readers per key, churn threads that force eviction, the
+// background writer free-running with random commit / read delays.
+//
+// Writer of key k performs ops s = 1, 2, 3, ...; op s is a remove if s % 5 == 0,
+// otherwise insert(k, s). Around every op it publishes started[k] = s before and
+// completed[k] = s after. A reader samples lo = completed[k] before and
+// hi = started[k] after its read; the read must return the state after some op in
+// [lo, hi] (unique values make the observed op identifiable):
+//   Some(v): lo <= v <= hi, v is not a remove;   None: lo == 0, or a remove op in [lo, hi].
+// Reads of one reader must also never go backwards. Sets: writer inserts element s
+// (s odd) and removes element s-LAG (s even): an element whose insert completed before
+// the read began and whose remove had not started when it ended must be present; an
+// element whose remove completed before the read began must be absent.
+
+fn is_remove(s: u64) -> bool { s % 5 == 0 }
+/// set element e (odd) is inserted by op e and removed by op e + LAG
+const LAG: u64 = 41;
+
+pub const F1_SIG: &str = "C09/parallel-set-map-stale-cached-entry [a key-to-set read returns a cached set that misses an operation \
+issued (and completed) before the read while readers of the same key were filling the cache; re-reading after the entry \
+has been evicted returns the right set]";
+
+/// Make every submitted batch durable and its after-commit work done: switch the store
+/// to commit-at-once, push one empty batch through, wait for the commit log to hold all
+/// logical batches. (Writers must have stopped.)
+fn drain(shared: &Arc<Shared>, wm: &<Db as StorageEngine>::WriteManager, submitted: &std::sync::atomic::AtomicU64) -> bool {
+    *shared.grouping.lock() = Grouping::Never;
+    wm.submit_write_batch(wm.new_write_batch());
+    let want = submitted.load(std::sync::atomic::Ordering::SeqCst) + 1;
+    let t0 = Instant::now();
+    loop {
+        let have: usize = shared.log.lock().iter().map(|c| c.logical_batches).sum();
+        if have as u64 >= want {
+            std::thread::sleep(Duration::from_millis(20));
+            return true;
+        }
+        if t0.elapsed() > Duration::from_secs(120) {
+            return false;
+        }
+        std::thread::sleep(Duration::from_millis(2));
+    }
+}
+
+pub struct ParOutcome {
+    pub reads: u64,
+    pub store_reads: u64,
+    pub bad: Vec<String>,
+}
+
+pub fn parallel_round(cap: u64, workers: usize, keys: usize, readers: usize, ops: u64, grouping: Grouping, seed: u64, delays: bool, sets: bool) -> ParOutcome {
+    use std::sync::atomic::{AtomicBool, AtomicU64, Ordering as O};
+    let shared = Shared::new(grouping, seed);
+    if delays {
+        shared.delay_commit_us.store(1 + seed % 300, O::SeqCst);
+        shared.delay_read_us.store(seed % 40, O::SeqCst);
+    }
+    let kv = RecKv::new(shared.clone(), Plugin::default());
+    let db = DbBacked::new(kv, Configuration::builder().cache_capacity(cap).serialization_workers(workers).build());
+    let wm = Arc::new(db.new_write_manager());
+    let sm = Arc::new(db.new_single_map::<ColS, ValS>());
+    let km = Arc::new(db.new_key_of_set_map::<ColK, Set>());
+    let started: Arc<Vec<AtomicU64>> = Arc::new((0..keys).map(|_| AtomicU64::new(0)).collect());
+    let completed: Arc<Vec<AtomicU64>> = Arc::new((0..keys).map(|_| AtomicU64::new(0)).collect());
+    let stop = Arc::new(AtomicBool::new(false));
+    // set by a reader that saw something wrong: writers stop issuing ops so that the state can be examined
+    let pause = Arc::new(AtomicBool::new(false));
+    let submitted = Arc::new(AtomicU64::new(0));
+    let truth_kv = RecKv::new(shared.clone(), Plugin::default());
+    let bad: Arc<parking_lot::Mutex<Vec<String>>> = Arc::new(parking_lot::Mutex::new(Vec::new()));
+    let reads = Arc::new(AtomicU64::new(0));
+    let mut hs = Vec::new();
+    // writers (one per key; every op in its own batch or a few ops per batch, submitted in creation order per writer)
+    for k in 0..keys {
+        let (wm, sm, km, started, completed, bad, pause, submitted) = (wm.clone(), sm.clone(), km.clone(), started.clone(), completed.clone(), bad.clone(), pause.clone(), submitted.clone());
+        let mut r = Rng::new(seed).derive(1000 + k as u64);
+        hs.push(std::thread::spawn(move || {
+            let key = k as u32;
+            let mut s = 0u64;
+            while s < ops && bad.lock().is_empty() && !pause.load(O::SeqCst) {
+                let mut batch = wm.new_write_batch();
+                for _ in 0..1 + r.usize_below(3) {
+                    s += 1;
+                    started[k].store(s, O::SeqCst);
+                    if is_remove(s) {
+                        block(sm.remove(&key, &mut batch));
+                    } else {
+                        block(sm.insert(key, ValS(s), &mut batch));
+                    }
+                    if !sets {
+                    } else if s % 2 == 1 {
+                        block(km.insert(key, s, &mut batch));
+                    } else if s > LAG {
+                        block(km.remove(&key, &(s - LAG), &mut batch));
+                    }
+                    completed[k].store(s, O::SeqCst);
+                    if r.chance(1, 4) {
+                        std::thread::yield_now();
+                    }
+                }
+                wm.submit_write_batch(batch);
+                submitted.fetch_add(1, O::SeqCst);
+            }
+        }));
+    }
+    // readers
+    for ri in 0..readers {
+        let (sm, km, started, completed, bad, stop, reads, pause) = (sm.clone(), km.clone(), started.clone(), completed.clone(), bad.clone(), stop.clone(), reads.clone(), pause.clone());
+        let (wm, submitted, shared, truth_kv) = (wm.clone(), submitted.clone(), shared.clone(), truth_kv.clone());
+        let mut r = Rng::new(seed).derive(2000 + ri as u64);
+        hs.push(std::thread::spawn(move || {
+            let mut last_seen: Vec<u64> = vec![0; started.len()];
+            while !stop.load(O::SeqCst) {
+                let k = r.usize_below(started.len());
+                let key = k as u32;
+                if !sets || r.chance(2, 3) {
+                    let lo = completed[k].load(O::SeqCst);
+                    let got = block(sm.get(&key)).map(|v| v.0);
+                    let hi = started[k].load(O::SeqCst);
+                    reads.fetch_add(1, O::Relaxed);
+                    let ok = match got {
+                        Some(v) => v >= lo && v <= hi && !is_remove(v) && (lo..=v).skip(1).all(|_| true),
+                        None => lo == 0 || (lo..=hi).any(is_remove),
+                    };
+                    // the newest op completed before the read decides unless a later one had started
+                    let newest_ok = match got {
+                        Some(v) => v >= lo || (lo..=hi).any(|x| x == v),
+                        None => true,
+                    };
+                    if !ok || !newest_ok {
+                        bad.lock().push(format!("single map key {key}: read returned {got:?} but ops 1..={lo} had completed and at most {hi} had started (remove ops are multiples of 5)"));
+                        break;
+                    }
+                    if let Some(v) = got {
+                        if v < last_seen[k] {
+                            bad.lock().push(format!("single map key {key}: a reader saw value {} and later the older value {v}", last_seen[k]));
+                            break;
+                        }
+                        last_seen[k] = v;
+                    }
+                } else {
+                    let lo = completed[k].load(O::SeqCst);
+                    let got: BTreeSet<u64> = block(km.get(&key)).collect();
+                    let hi = started[k].load(O::SeqCst);
+                    reads.fetch_add(1, O::Relaxed);
+                    // element e (odd) is inserted by op e and removed by op e + LAG
+                    for e in (1..=hi).step_by(2) {
+                        let must_have = e <= lo && e + LAG > hi;
+                        let must_not = e + LAG <= lo;
+                        let wrong = (must_have && !got.contains(&e)) || (must_not && got.contains(&e));
+                        if !wrong {
+                            continue;
+                        }
+                        // stop the writers, let in-flight ops finish, then look again: at once, and
+                        // after the cached entry has been pushed out by cold keys
+                        pause.store(true, O::SeqCst);
+                        std::thread::sleep(Duration::from_millis(20));
+                        // drain the write-behind pipeline: afterwards the store alone is the truth
+                        // (nothing staged), so whatever differs from it can only be the cached entry
+                        let drained = drain(&shared, &wm, &submitted);
+                        let now = completed[k].load(O::SeqCst);
+                        let expect_now = e <= now && e + LAG > now;
+                        let store: BTreeSet<u64> = qbice_storage::kv_database::KvDatabase::scan_members::<ColK>(&truth_kv, &key).collect();
+                        let again: BTreeSet<u64> = block(km.get(&key)).collect();
+                        let refetched = &store;
+                        let tag = if !drained {
+                            "undecided: pipeline did not drain"
+                        } else if store.contains(&e) != expect_now {
+                            "store-wrong"
+                        } else if again.contains(&e) != expect_now {
+                            "cached-entry"
+                        } else {
+                            // right now: the entry that served the wrong read is gone (evicted) - or the
+                            // staging area / store was wrong at the time; cannot be told apart afterwards
+                            "cached-entry-or-transient"
+                        };
+                        bad.lock().push(format!(
+                            "set map key {key}: element {e} {} although op {} had completed before the read began ({lo}..{hi}; insert = op {e}, remove = op {}) [writers stopped at op {now}, pipeline drained: read again: {}; store: {}; expected: {}] [{tag}]",
+                            if must_not { "present" } else { "missing" },
+                            if must_not { e + LAG } else { e },
+                            e + LAG,
+                            if again.contains(&e) { "present" } else { "absent" },
+                            if refetched.contains(&e) { "present" } else { "absent" },
+                            if expect_now { "present" } else { "absent" },
+                        ));
+                        return;
+                    }
+                    if let Some(x) = got.iter().find(|x| **x > hi || **x % 2 == 0) {
+                        bad.lock().push(format!("set map key {key}: element {x} was never inserted (ops started: {hi})"));
+                        return;
+                    }
+                }
+            }
+        }));
+    }
+    // churn: cold keys through both caches
+    {
+        let (sm, km, stop) = (sm.clone(), km.clone(), stop.clone());
+        hs.push(std::thread::spawn(move || {
+            let mut n = 10_000u32;
+            while !stop.load(O::SeqCst) {
+                n += 1;
+                let _ = block(sm.get(&n));
+                let _ = block(km.get(&n)).count();
+                if n % 64 == 0 {
+                    std::thread::yield_now();
+                }
+            }
+        }));
+    }
+    let nwriters = keys;
+    for (i, h) in hs.into_iter().enumerate() {
+        if i == nwriters {
+            stop.store(true, std::sync::atomic::Ordering::SeqCst);
+        }
+        let _ = h.join();
+    }
+    stop.store(true, std::sync::atomic::Ordering::SeqCst);
+    // final state after the writers are done: exactly the last op per key
+    let mut out_bad = std::mem::take(&mut *bad.lock());
+    if out_bad.is_empty() {
+        for k in 0..keys {
+            let key = k as u32;
+            let last = completed[k].load(std::sync::atomic::Ordering::SeqCst);
+            let exp = if last == 0 || is_remove(last) { None } else { Some(last) };
+            let got = block(sm.get(&key)).map(|v| v.0);
+            if got != exp {
+                out_bad.push(format!("single map key {key}: after all writes completed a read returns {got:?}, the last op ({last}) says {exp:?}"));
+            }
+            if !sets {
+                continue;
+            }
+            let got: BTreeSet<u64> = block(km.get(&key)).collect();
+            let exp: BTreeSet<u64> = (1..=last).step_by(2).filter(|e| e + LAG > last).collect();
+            if got != exp {
+                let drained = drain(&shared, &wm, &submitted);
+                let refetched: BTreeSet<u64> = qbice_storage::kv_database::KvDatabase::scan_members::<ColK>(&truth_kv, &key).collect();
+                let tag = if !drained { "undecided: pipeline did not drain" } else if refetched == exp { "cached-entry" } else { "store-wrong" };
+                out_bad.push(format!("set map key {key}: content after all writes completed is {got:?}, expected {exp:?}; the store (pipeline drained) holds {refetched:?} [{tag}]"));
+            }
+        }
+    }
+    let store_reads = shared.reads.load(std::sync::atomic::Ordering::Relaxed) + shared.scans.load(std::sync::atomic::Ordering::Relaxed);
+    drop((sm, km));
+    drop(wm);
+    drop(db);
+    ParOutcome { reads: reads.load(std::sync::atomic::Ordering::Relaxed), store_reads, bad: out_bad }
+}
+
 pub fn worker(ctx: &WorkerCtx) -> Report {
+    let mut rep = if std::env::var("QV_C09_PAR_ONLY").is_ok() { hooks::install(); Report::default() } else { worker_seq(ctx) };
+    // parallel readers / writers on shared keys
+    let base = Rng::new(ctx.seed).derive(9900 + ctx.shard as u64);
+    let n = if ctx.part == "miri" { 1 } else { ctx.pick(40u64, 1200) };
+    let mut reported: std::collections::HashSet<String> = std::collections::HashSet::new();
+    for i in 0..n {
+        let mut r = base.derive(i);
+        let miri = ctx.part == "miri";
+        let cap = *r.pick(&[1u64, 1, 2, 8]);
+        let workers = *r.pick(&[1usize, 2, 4]);
+        let keys = if miri { 1 } else { 1 + r.usize_below(3) };
+        let readers = if miri { 1 } else { 1 + r.usize_below(4) };
+        let ops = if miri { 12 } else { 200 + r.below(1500) };
+        let grouping = *r.pick(&[Grouping::Never, Grouping::Random(4), Grouping::Always]);
+        let delays = r.chance(1, 2);
+        let seed = r.next_u64();
+        // half of the rounds leave the key-to-set map alone: the known finding C09-F1 ends a
+        // round at its first stale set read, which would otherwise starve the single-value map
+        let sets = i % 2 == 0;
+        let case = format!("C09 parallel round {i} cap={cap} workers={workers} keys={keys} readers={readers} ops={ops} grouping={grouping:?} delays={delays} maps={}", if sets { "single+set" } else { "single" });
+        ctx.announce(&case);
+        let out = parallel_round(cap, workers, keys, readers, ops, grouping, seed, delays, sets);
+        rep.evaluations += 1;
+        rep.count("parallel_rounds", 1);
+        rep.count("parallel_reads_checked", out.reads);
+        rep.count("parallel_store_reads", out.store_reads);
+        if out.store_reads > 0 && out.reads > 0 {
+            rep.distinct.insert(h64(&("par", cap, workers, keys, readers, ops, seed)));
+        }
+        if let Some(b) = out.bad.first().filter(|b| b.contains("[undecided")) {
+            rep.inconclusive.push(format!("{case}: {b}"));
+        } else if let Some(b) = out.bad.first() {
+            rep.count("violations", 1);
+            let sig = if b.starts_with("set map") && (b.ends_with("[cached-entry]") || b.ends_with("[cached-entry-or-transient]")) {
+                        F1_SIG.to_string()
+                    } else {
+                        format!("C09/parallel-{}", if b.starts_with("set map") { "set-map-stale-or-lost" } else { "single-map-stale-read" })
+                    };
+            if reported.insert(sig.clone()) {
+                ctx.violation(&Violation {
+                    signature: sig,
+                    what: b.clone(),
+                    witness: Json::obj().set("case", case.as_str()).set("seed", seed).set("all", Json::Arr(out.bad.iter().take(5).map(|x| Json::Str(x.clone())).collect())),
+                });
+            }
+        }
+    }
+    rep
+}
+
+fn worker_seq(ctx: &WorkerCtx) -> Report {
     hooks::install();
     let mut rep = Report::default();
     let n: u64 = if ctx.part == "miri" { 2 } else { ctx.pick(3000, 60_000) };
     let base = Rng::new(ctx.seed).derive(900 + ctx.shard as u64);
     let mut reported = std::collections::HashSet::new();
-    for i in 0..n {
+    // directed histories around the 1024-element spill: a set larger than the threshold is
+    // committed, then part of it is removed / other elements are added in an open batch, and
+    // the set is read while the removals are only staged (the read merges a partially loaded
+    // set, the rest of the store scan and the staging area)
+    let ndirected = if ctx.part == "miri" { 0 } else { ctx.pick(12u64, 120) };
+    for i in 0..n + ndirected {
         let mut r = base.derive(i);
         let cap = *r.pick(&[1u64, 1, 2, 2, 8]);
         let workers = *r.pick(&[1usize, 2]);
         let big = i % 10 == 9;
         let len = if big { 30 } else { 20 + r.usize_below(ctx.pick(120, 300)) };
-        let ops = gen_ops(&mut r, len, big);
+        let ops = if i >= n {
+            let lo = 100 + r.below(50);
+            let hi = lo + 1000 + r.below(300);
+            let keep_low = r.below(4);
+            let keep_high = hi + 1 + r.below(40);
+            let mut ops = vec![Op::NewBatch, Op::KGrow(2, lo, hi)];
+            for e in 0..keep_low {
+                ops.push(Op::KIns(2, 1 + e));
+            }
+            if r.chance(1, 2) {
+                ops.push(Op::KIns(2, keep_high));
+            }
+            ops.extend([Op::Submit(0), Op::Commit(2), Op::Churn(2), Op::NewBatch]);
+            // remove everything, a prefix, a suffix or a middle part of the big range
+            let (a, b) = match r.below(4) {
+                0 => (lo, hi + 150),
+                1 => (lo, lo + r.below(hi - lo)),
+                2 => (lo + r.below(hi - lo), hi),
+                _ => {
+                    let a = lo + r.below(hi - lo);
+                    (a, a + r.below(hi - a + 1))
+                }
+            };
+            ops.push(Op::KShrink(2, a, b));
+            if r.chance(1, 2) {
+                ops.push(Op::KIns(2, 5000 + r.below(10)));
+            }
+            ops.push(Op::KGet(2));
+            if r.chance(1, 2) {
+                ops.extend([Op::Submit(0), Op::Commit(2), Op::KGet(2), Op::Churn(2), Op::KGet(2)]);
+            }
+            rep.count("directed_spill_histories", 1);
+            ops
+        } else {
+            gen_ops(&mut r, len, big)
+        };
         let seed = r.next_u64();
         ctx.announce(&format!("C09 seq history {i} cap={cap} workers={workers} len={len}"));
         rep.evaluations += 1;
